@@ -12,6 +12,7 @@ import (
 	"time"
 
 	"github.com/pion/rtp"
+	"github.com/pion/rtp/codecs"
 	kit "github.com/pion/webrtc/v4/internal/verifkit"
 	"github.com/pion/webrtc/v4/pkg/media"
 	"github.com/pion/webrtc/v4/pkg/media/samplebuilder"
@@ -62,9 +63,27 @@ type c31Pkt struct {
 	Frame int  // frame index (-1 for padding)
 }
 
-func (p c31Pkt) payload() []byte {
+// c31Token marks a packet inside a real codec payload: C3 31 seq seq copy A5 5A 3C.
+func (p c31Pkt) token() []byte {
+	return []byte{0xC3, 0x31, byte(p.Seq >> 8), byte(p.Seq), p.Copy, 0xA5, 0x5A, 0x3C}
+}
+
+func (p c31Pkt) payload(codec string) []byte {
 	if p.Pad {
 		return []byte{}
+	}
+	switch codec {
+	case "h264": // single NAL unit packet, type 1: every packet is a partition head, tail = marker
+		return append([]byte{0x41}, p.token()...)
+	case "vp8": // one-byte payload descriptor, S bit = partition head, tail = marker
+		d := byte(0)
+		if p.Head {
+			d = 0x10
+		}
+
+		return append([]byte{d}, p.token()...)
+	case "opus": // every packet is head and tail
+		return append([]byte{0x78}, p.token()...)
 	}
 	b := make([]byte, 9+len(p.Body))
 	b[0] = 0x80
@@ -108,6 +127,7 @@ type c31Case struct {
 	MaxLate  uint16
 	DelayMs  int // 0: WithMaxTimeDelay not used
 	Headers  bool
+	Codec    string // "" = the self-describing fake depacketizer; "h264", "vp8", "opus" = pion/rtp codecs + token scan
 	Pkts     []c31Pkt
 	Ops      []c31Op
 	Conserve bool    // oracle (3) applies
@@ -139,7 +159,7 @@ func (c *c31Case) opStrings() []string {
 
 func (c *c31Case) desc() string {
 	var b strings.Builder
-	fmt.Fprintf(&b, "%s ml=%d d=%d h=%v|", c.Class, c.MaxLate, c.DelayMs, c.Headers)
+	fmt.Fprintf(&b, "%s %s ml=%d d=%d h=%v|", c.Class, c.Codec, c.MaxLate, c.DelayMs, c.Headers)
 	for _, o := range c.Ops {
 		if o.K == 'P' {
 			p := c.Pkts[o.P]
@@ -162,8 +182,9 @@ type c31Stream struct {
 	wrapTS  bool
 }
 
-func c31GenStream(r *kit.Rand, nFrames int, hostile bool) c31Stream {
+func c31GenStream(r *kit.Rand, nFrames int, hostile bool, codec string) c31Stream {
 	var st c31Stream
+
 	switch r.Intn(8) {
 	case 0:
 		st.start = 0
@@ -191,6 +212,9 @@ func c31GenStream(r *kit.Rand, nFrames int, hostile bool) c31Stream {
 	}
 	stepMode := r.Intn(4)
 	sizeMode := r.Intn(4)
+	if codec == "opus" {
+		sizeMode = 0
+	}
 	u := 0
 	for f := 0; f < nFrames; f++ {
 		var n int
@@ -252,6 +276,14 @@ func c31GenStream(r *kit.Rand, nFrames int, hostile bool) c31Stream {
 	}
 	if int(st.start)+u > 65536 {
 		st.wrapSeq = true
+	}
+	if codec != "" { // real depacketizers: the payload carries only the token; H.264 single-NAL and Opus packets are all heads
+		for i := range st.pkts {
+			st.pkts[i].Body = nil
+			if codec == "h264" || codec == "opus" {
+				st.pkts[i].Head = true
+			}
+		}
 	}
 
 	return st
@@ -367,10 +399,13 @@ func c31Gen(r *kit.Rand, idx int) *c31Case {
 	}
 	class := idx % 4
 	c.Headers = r.Chance(0.3)
+	if class != 3 && r.Chance(0.15) {
+		c.Codec = kit.Pick(r, []string{"h264", "h264", "vp8", "opus"})
+	}
 	switch class {
 	case 0: // conservation: loss-free, bounded reorder, maxLate derived from the delivery order
 		c.Class = "conserve"
-		st := c31GenStream(r, nFrames, false)
+		st := c31GenStream(r, nFrames, false, c.Codec)
 		c.WrapSeq, c.WrapTS = st.wrapSeq, st.wrapTS
 		order := make([]int, len(st.pkts))
 		for i := range order {
@@ -408,7 +443,7 @@ func c31Gen(r *kit.Rand, idx int) *c31Case {
 	default:
 		hostile := class == 3
 		c.Class = []string{"", "lossy", "dups", "hostile"}[class]
-		st := c31GenStream(r, nFrames, hostile)
+		st := c31GenStream(r, nFrames, hostile, c.Codec)
 		c.WrapSeq, c.WrapTS = st.wrapSeq, st.wrapTS
 		c.MaxLate = kit.Pick(r, c31MaxLates)
 		if hostile && r.Chance(0.1) {
@@ -630,7 +665,7 @@ type c31Result struct {
 	popNil      int
 	divergence  map[string]int
 	framesOut   int
-	lastList    []string
+	lastUs      []int // unwrapped positions of the previous sample's packets
 }
 
 type c31PushState struct {
@@ -707,7 +742,16 @@ func c31Exec(c *c31Case) *c31Result { //nolint:gocognit,cyclop,maintidx
 	if c.Headers {
 		opts = append(opts, samplebuilder.WithRTPHeaders(true))
 	}
-	sb := samplebuilder.New(c.MaxLate, c31Depack{}, c31SampleRate, opts...)
+	var dep rtp.Depacketizer = c31Depack{}
+	switch c.Codec {
+	case "h264":
+		dep = &codecs.H264Packet{}
+	case "vp8":
+		dep = &codecs.VP8Packet{}
+	case "opus":
+		dep = &codecs.OpusPacket{}
+	}
+	sb := samplebuilder.New(c.MaxLate, dep, c31SampleRate, opts...)
 
 	generic := func(sig string) string {
 		if c.MaxLate <= 1 {
@@ -742,6 +786,24 @@ func c31Exec(c *c31Case) *c31Result { //nolint:gocognit,cyclop,maintidx
 		// (1) decode
 		var idxs []int
 		d := sm.Data
+		if c.Codec != "" { // real depacketizer: find the tokens
+			d = nil
+			for j := 0; j+8 <= len(sm.Data); j++ {
+				b := sm.Data[j:]
+				if b[0] != 0xC3 || b[1] != 0x31 || b[5] != 0xA5 || b[6] != 0x5A || b[7] != 0x3C {
+					continue
+				}
+				k := key{binary.BigEndian.Uint16(b[2:]), b[4]}
+				pi, ok := byKey[k]
+				if !ok || !states[pi].pushed {
+					viol("sample-from-unpushed-packet", "sample #%d (op %d): token seq=%d copy=%d is not a packet pushed so far", n, opNo, k.seq, k.copy)
+
+					return
+				}
+				idxs = append(idxs, pi)
+				j += 7
+			}
+		}
 		for len(d) > 0 {
 			if len(d) < 8 || len(d) < 8+int(d[7]) {
 				viol("malformed-sample", "sample #%d (op %d): data does not parse as a concatenation of depacketized payloads (%d trailing bytes, data %s)", n, opNo, len(d), kit.Hex(sm.Data))
@@ -775,7 +837,12 @@ func c31Exec(c *c31Case) *c31Result { //nolint:gocognit,cyclop,maintidx
 		if trace {
 			fmt.Printf("      sample #%d %v\n", n, lst)
 		}
-		defer func() { res.lastList = lst }()
+		defer func() {
+			res.lastUs = res.lastUs[:0]
+			for _, pi := range idxs {
+				res.lastUs = append(res.lastUs, states[pi].pkt.U)
+			}
+		}()
 		first := states[idxs[0]].pkt
 		for j := 1; j < len(idxs); j++ {
 			p, q := states[idxs[j-1]].pkt, states[idxs[j]].pkt
@@ -817,12 +884,18 @@ func c31Exec(c *c31Case) *c31Result { //nolint:gocognit,cyclop,maintidx
 		for _, pi := range idxs {
 			u := states[pi].pkt.U
 			if prev, dup := emittedBy[u]; dup {
-				same := prev == pi
 				sig := classify(pi, true)
-				if same {
-					sig = generic("packet-in-two-samples")
-					if prevLst := res.lastList; len(lst) < len(prevLst) && strings.Join(prevLst[len(prevLst)-len(lst):], " ") == strings.Join(lst, " ") {
+				if !(states[pi].isDup && states[pi].dupAfter) {
+					// are the sequence numbers of this sample exactly the tail of the previous sample's?
+					prevU, suffix := res.lastUs, len(res.lastUs) >= len(idxs)
+					for j := 0; suffix && j < len(idxs); j++ {
+						suffix = prevU[len(prevU)-len(idxs)+j] == states[idxs[j]].pkt.U
+					}
+					switch {
+					case suffix:
 						sig = "packet-in-two-samples:suffix-of-previous-sample-reemitted"
+					case prev == pi:
+						sig = generic("packet-in-two-samples")
 					}
 				}
 				viol(sig, "sample #%d (op %d) = packets %v reuses seq %d (copy %d) which already went into sample #%d (as copy %d); this copy was pushed with %d packets buffered, earlier copy emitted-or-released before this push: %v",
@@ -886,7 +959,7 @@ func c31Exec(c *c31Case) *c31Result { //nolint:gocognit,cyclop,maintidx
 			}
 			pushedU[p.U] = append(pushedU[p.U], o.P)
 			s.pushed = true
-			rp := &rtp.Packet{Header: rtp.Header{Version: 2, SequenceNumber: p.Seq, Timestamp: p.TS, Marker: p.Mark, PayloadType: 96, SSRC: 0x31}, Payload: p.payload()}
+			rp := &rtp.Packet{Header: rtp.Header{Version: 2, SequenceNumber: p.Seq, Timestamp: p.TS, Marker: p.Mark, PayloadType: 96, SSRC: 0x31}, Payload: p.payload(c.Codec)}
 			byPtr[rp] = o.P
 			byKey[key{p.Seq, p.Copy}] = o.P
 			if _, held := slot[p.Seq]; !held {
@@ -1024,6 +1097,9 @@ func TestVerifC31(t *testing.T) {
 			run.Count("model_divergence:"+k, v)
 		}
 		run.Seen("class", c.Class)
+		if c.Codec != "" {
+			run.Seen("real_depacketizer", c.Codec)
+		}
 		run.Seen("max_late", fmt.Sprintf("%05d", c.MaxLate))
 		if i < len(scripted) || (i < len(scripted)+3) {
 			run.Sample(map[string]any{"case": i, "class": c.Class, "note": c.Note, "max_late": c.MaxLate, "ops": len(c.Ops), "samples_out": res.samples})
@@ -1032,15 +1108,15 @@ func TestVerifC31(t *testing.T) {
 			mu.Lock()
 			classSeen[fmt.Sprintf("%s %s ml=%d", v.sig, c.Class, c.MaxLate)]++
 			if os.Getenv("VERIF_C31_STATS") == "2" {
-				fmt.Printf("C31-CASE: %d %s ml=%d %s\n", i, v.sig, c.MaxLate, c.Note)
+				fmt.Printf("C31-CASE: %d %s ml=%d %s %s %s\n", i, v.sig, c.MaxLate, c.Class, c.Codec, c.Note)
 			}
 			mu.Unlock()
 			lists := res.sampleLists
 			if len(lists) > 60 {
 				lists = lists[:60]
 			}
-			run.Violation(v.sig, fmt.Sprintf("[%s, maxLate=%d, delay=%dms, %s] %s", c.Class, c.MaxLate, c.DelayMs, c.Note, v.what), i, map[string]any{
-				"class": c.Class, "note": c.Note, "max_late": c.MaxLate, "max_time_delay_ms": c.DelayMs, "rtp_headers": c.Headers,
+			run.Violation(v.sig, fmt.Sprintf("[%s%s, maxLate=%d, delay=%dms, %s] %s", c.Class, map[bool]string{true: "/" + c.Codec}[c.Codec != ""], c.MaxLate, c.DelayMs, c.Note, v.what), i, map[string]any{
+				"class": c.Class, "note": c.Note, "max_late": c.MaxLate, "max_time_delay_ms": c.DelayMs, "rtp_headers": c.Headers, "depacketizer": c.Codec,
 				"ops": c.opStrings(), "samples_emitted_as_seq.copy": lists,
 			})
 		}
